@@ -328,6 +328,17 @@ impl<T: HighwayHash + Clone + Debug + Hasher + MaybeWrite + 'static> Ops for Hol
     }
 }
 
+/// records the exact write stream std's Hash impls produce
+struct Rec(Vec<u8>);
+impl Hasher for Rec {
+    fn write(&mut self, b: &[u8]) {
+        self.0.extend_from_slice(b);
+    }
+    fn finish(&self) -> u64 {
+        0
+    }
+}
+
 // ---------------------------------------------------------------- script interpretation
 fn unhex(s: &str) -> Vec<u8> {
     if s == "-" {
@@ -616,6 +627,48 @@ fn run_history(lines: &[&str], out: &mut String) {
                     }
                 });
                 alloc_line(out);
+            }
+            "hashone" => {
+                let key = key_of(&t[1..5]);
+                let v = unhex(t[6]);
+                let mut rec = Rec(Vec::new());
+                let b1 = HighwayBuildHasher::new(key);
+                let b2 = HighwayBuildHasher::new(key);
+                fn pad<const N: usize>(v: &[u8]) -> [u8; N] {
+                    let mut a = [0u8; N];
+                    for (d, s) in a.iter_mut().zip(v) {
+                        *d = *s;
+                    }
+                    a
+                }
+                macro_rules! go {
+                    ($val:expr) => {{
+                        let val = $val;
+                        std::hash::Hash::hash(&val, &mut rec);
+                        (b1.hash_one(&val), b2.hash_one(&val))
+                    }};
+                }
+                let (f1, f2) = match t[5] {
+                    "u8" => go!(v.first().copied().unwrap_or(0)),
+                    "u32" => go!(u32::from_le_bytes(pad::<4>(&v))),
+                    "u64" => go!(u64::from_le_bytes(pad::<8>(&v))),
+                    "i64" => go!(i64::from_le_bytes(pad::<8>(&v))),
+                    "u128" => go!(u128::from_le_bytes(pad::<16>(&v))),
+                    "str" => go!(String::from_utf8_lossy(&v).into_owned()),
+                    "bytes" => go!(&v[..]),
+                    "tuple" => go!((u64::from_le_bytes(pad::<8>(&v)), String::from_utf8_lossy(&v).into_owned())),
+                    "vec16" => go!(v.chunks(2).map(|c| u16::from_le_bytes(pad::<2>(c))).collect::<Vec<u16>>()),
+                    "unit" => go!(()),
+                    _ => panic!("script: hashone kind"),
+                };
+                let reference = PortableHash::new(key).hash64(&rec.0);
+                out.push_str("HONE ");
+                if rec.0.is_empty() {
+                    out.push('-');
+                } else {
+                    hex(out, &rec.0);
+                }
+                let _ = writeln!(out, " {:016x} {:016x} {:016x}", f1, f2, reference);
             }
             other => panic!("script: unknown op {}", other),
         }
